@@ -52,19 +52,24 @@ PROPS['C15'] = dict(
 
 PROPS['C18'] = dict(
     trace=dict(module='Trace_SectionWriter', cfg='Trace_SectionWriter.cfg'),
-    mc=dict(quick=[mc('MC_SectionWriter', 'MC_SectionWriter_q.cfg', expect_min_distinct=5000)],
-            thorough=[mc('MC_SectionWriter', 'MC_SectionWriter.cfg', expect_min_distinct=5000)]),
-    need_kinds=['sw'],
+    bindings=[dict(drv='C18', trace=dict(module='Trace_SectionWriter', cfg='Trace_SectionWriter.cfg'),
+                   gen=dict(quick=[sim('Gen_SectionWriter', 'Gen_SectionWriter.cfg', 400, 20, 'sw')],
+                            thorough=[sim('Gen_SectionWriter', 'Gen_SectionWriter_t.cfg', 10000, 24, 'sw', shards=8)])),
+              # a SectionWriter over a SectionWriter: the composition SectionWriter2 (two instances of the machine)
+              dict(drv='C18n', trace=dict(module='Trace_SectionWriter2', cfg='Trace_SectionWriter2.cfg'), shards=dict(quick=4, thorough=8))],
+    mc=dict(quick=[mc('MC_SectionWriter', 'MC_SectionWriter_q.cfg', expect_min_distinct=5000), mc('MC_SectionWriter2', 'MC_SectionWriter2_q.cfg', expect_min_distinct=5000)],
+            thorough=[mc('MC_SectionWriter', 'MC_SectionWriter.cfg', expect_min_distinct=5000), mc('MC_SectionWriter2', 'MC_SectionWriter2.cfg', expect_min_distinct=200000)]),
+    need_kinds=['sw', 'swn'],
     apalache=dict(quick=[dict(module='SectionWriterInd', cinit='CInit', runs=[('Init', 'IndInv', 0), ('IndInit', 'IndInv', 1), ('IndInit', 'Property', 0)],
                               refute=[('IndInit', 'BadNeverWrites', 1), ('IndInit', 'BadCursorStays', 1), ('IndInit', 'BadNeverShort', 1)])],
                   thorough=[dict(module='SectionWriterInd', cinit='CInit', runs=[('Init', 'IndInv', 0), ('IndInit', 'IndInv', 1), ('IndInit', 'Property', 0)],
                                  refute=[('IndInit', 'BadNeverWrites', 1), ('IndInit', 'BadCursorStays', 1), ('IndInit', 'BadNeverShort', 1)])]),
-    gen=dict(quick=[sim('Gen_SectionWriter', 'Gen_SectionWriter.cfg', 400, 20, 'sw')],
-             thorough=[sim('Gen_SectionWriter', 'Gen_SectionWriter_t.cfg', 10000, 24, 'sw', shards=8)]),
     rule='a case is one SectionWriter/AtToWriter history over a scripted underlying io.WriterAt (accepts k bytes, optionally fails): '
          'seeded sequences of Write/WriteAt/Seek/Size with buffers ending exactly at, one before and beyond the section end, every whence incl. invalid ones, '
          'offsets before the section start, cursor probes by Seek(0,SeekCurrent); every call is one trace event (arguments, returned count, error class, every underlying call with offset and bytes) '
-         'judged by Trace_SectionWriter; distinct = distinct operation sequences, non-trivial = at least one call after New',
+         'judged by Trace_SectionWriter; swn: a SectionWriter laid over another SectionWriter (offsets and lengths so that the outer section ends before, at and beyond the inner one), '
+         'operations on the outer and directly on the inner section, judged by Trace_SectionWriter2 (the composition of two instances of the machine); '
+         'distinct = distinct operation sequences, non-trivial = at least one call after New',
     assumptions=TRUST + ['the underlying writer obeys io.WriterAt (accepts at most what it is offered, reports an error when it accepts less)',
                          'offsets are below 2^29 (TLC integers); AtToWriter is exercised without SeekEnd (its limit is MaxInt64 by construction)'],
 )
